@@ -1,5 +1,6 @@
 import XdistModel.Driver.Util
 import XdistModel.Pure.Options
+import XdistModel.Pure.Looponfail
 /-
   Line protocol front end for the pure / near-pure functions (one line in, one line out).
 -/
@@ -7,7 +8,24 @@ namespace Xdist.Driver.Pure
 open Xdist Xdist.Driver
 
 structure St where
-  dummy : Unit := ()
+  cache : Looponfail.Cache := []
+
+def parsePath (s : String) : Looponfail.Path := (s.splitOn "/").filter (fun c => !c.isEmpty)
+def showPath (p : Looponfail.Path) : String := "/" ++ "/".intercalate p
+
+def parseFsEntry (s : String) : Option (Looponfail.Path × Looponfail.Stat) :=
+  match s.splitOn "|" with
+  | [p, m, z] => do
+    let m ← m.toNat?
+    let z ← z.toNat?
+    pure (parsePath p, (m, z))
+  | _ => none
+
+def insertSorted (x : String) : List String → List String
+  | [] => [x]
+  | y :: t => if x ≤ y then x :: y :: t else y :: insertSorted x t
+
+def sortStrings (l : List String) : List String := l.foldr insertSorted []
 
 def parseDist (s : String) : Option Options.Dist :=
   match s with
@@ -73,6 +91,19 @@ def handle (st : St) (line : String) : St × String :=
     match parseAutoEnv env, cpu.toNat? with
     | some e, some c => (st, toString (Options.autoNum e c))
     | _, _ => (st, "bad-op")
+  | ["sr-init"] => ({ st with cache := [] }, "ok")
+  | ["sr-poll", roots, fs] =>
+    match (parseStrList fs).mapM parseFsEntry with
+    | none => (st, "bad-op")
+    | some fs =>
+      let r := Looponfail.check st.cache ((parseStrList roots).map parsePath) fs
+      ({ st with cache := r.2 }, s!"{showBool r.1} {showStrList (sortStrings (r.2.map (fun e => showPath e.1)))}")
+  | ["lf", fails, trails, cf] =>
+    match parseBool cf with
+    | none => (st, "bad-op")
+    | some cf =>
+      let r := Looponfail.loopOnce (parseStrList fails) (parseStrList trails) cf
+      (st, s!"{showStrList r} {showBool (Looponfail.wasFailing (parseStrList fails))}")
   | ["tx", l] =>
     match Options.expand ((parseStrList l).map String.toList) with
     | .ok r => (st, s!"ok {showStrList (r.map String.ofList)}")
